@@ -141,3 +141,55 @@ fn c23_encode_percents_roundtrip() {
     kani::cover!(len == 3 && expect_len == 9, "all three bytes escaped");
     kani::cover!(len == 3 && expect_len == 3, "no byte escaped");
 }
+
+// ---- transports: every value the parser hands to a transport is the percent-*decoded* byte string
+mod transports {
+    use super::super::{Transport, UnixSocket};
+    use super::{no_format, ref_decode};
+    use std::collections::HashMap;
+    use std::os::unix::ffi::OsStrExt;
+
+    /// Environment stub: hash-map seed. Fixed keys make SipHash a concrete computation (the property does not
+    /// depend on the seed); the layout of RandomState (two u64) is checked by the size assertion.
+    pub fn fixed_random_state() -> std::hash::RandomState {
+        assert!(core::mem::size_of::<std::hash::RandomState>() == 16);
+        unsafe { core::mem::transmute::<[u64; 2], std::hash::RandomState>([0x0123456789abcdef, 0xfedcba9876543210]) }
+    }
+
+    /// `unix:path=<v>` with v = up to 3 symbolic ASCII bytes drawn so that it is a valid escaped value:
+    /// the resulting socket path must be the percent-decoded bytes.
+    #[kani::proof]
+    #[kani::unwind(8)]
+    #[kani::stub(alloc::fmt::format, no_format)]
+    #[kani::stub(std::hash::RandomState::new, fixed_random_state)]
+    fn c23_unix_path_is_decoded() {
+        let buf: [u8; 3] = kani::any();
+        let len: usize = kani::any();
+        kani::assume(len >= 1 && len <= 3);
+        kani::assume(buf[0] < 0x80 && buf[1] < 0x80 && buf[2] < 0x80);
+        let v = unsafe { core::str::from_utf8_unchecked(&buf[..len]) };
+        let want = ref_decode(&buf[..len]);
+        kani::assume(want.is_some()); // only valid escaped values
+        let (out, n) = want.unwrap();
+        let mut opts: HashMap<&str, &str> = HashMap::new();
+        opts.insert("path", v);
+        let r = Transport::from_options("unix", opts);
+        match &r {
+            Ok(Transport::Unix(u)) => match u.path() {
+                UnixSocket::File(p) => {
+                    let b = p.as_os_str().as_bytes();
+                    kani::cover!(len == 3 && n == 1, "escaped byte");
+                    assert!(b.len() == n, "unix path is not percent-decoded");
+                    let mut i = 0;
+                    while i < n {
+                        assert!(b[i] == out[i], "unix path is not percent-decoded");
+                        i += 1;
+                    }
+                }
+                _ => assert!(false, "wrong socket kind"),
+            },
+            _ => assert!(false, "a valid unix address was rejected"),
+        }
+        core::mem::forget(r);
+    }
+}
